@@ -1,7 +1,7 @@
 (* Extraction of the executable models for the correspondence runner.
    ExtrOcamlBasic only; numbers stay positive/N/Z datatypes; no Extract Constant. *)
 From Coq Require Import ZArith List Extraction ExtrOcamlBasic.
-From Verif Require Import Model.Retry.
+From Verif Require Import Model.Retry Model.MsgRun.
 Extraction Language OCaml.
 Extraction "model.ml" Z.add Z.mul Z.div Z.modulo Z.opp
-  run_retry run_canretry.
+  run_retry run_canretry run_msg_enc run_msg_dec run_frame_in.
